@@ -107,6 +107,13 @@ DATA_HISTORIES = {
         ["commit"],
         ["copy", "/src", "/cp"], ["move", "/src/d", "/mv"], ["set", "/z", B("")],
     ],
+    # base container written by a plain IH5Record (no manifest); turned into an IH5MFRecord by committing a patch
+    "h12-plainbase": [
+        ["plain-base"],
+        ["set", "/a", S("h12a")], ["mkgrp", "/g"], ["setattr", "/g", "ga", 1],
+        ["commit"],
+        ["set", "/g/x", 2], ["del", "/a"],
+    ],
 }
 
 
